@@ -93,48 +93,69 @@ Proof.
 Qed.
 
 (* ---- Quantity conversions ---- *)
-Lemma maxtask_convert r : snd (new_resource (convert r)) = sget r pods_name.
+Lemma maxtask_convert_z r : snd (new_resource_z (convert_z r)) = sget r pods_name.
 Proof.
-  unfold new_resource. cbn [snd]. rewrite lookup_convert. unfold sget.
+  unfold new_resource_z. cbn [snd]. rewrite lookup_convert_z. unfold sget.
   destruct (scm r !! pods_name) as [v|]; cbn [default].
   - unfold quantity_of. rewrite decide_True by reflexivity. apply qvalue_units.
   - rewrite decide_False by (vm_compute; congruence). rewrite decide_False by (vm_compute; congruence). reflexivity.
 Qed.
 
-Lemma sc_new_resource_not_empty rl : sc (fst (new_resource rl)) <> Some ∅.
+Lemma sc_new_resource_z_not_empty rl : sc (fst (new_resource_z rl)) <> Some ∅.
 Proof.
-  unfold new_resource. cbn [fst sc].
+  unfold new_resource_z. cbn [fst sc].
   destruct (bool_decide (map_imap scalar_of rl = ∅)) eqn:E; [discriminate|].
   apply bool_decide_eq_false in E. intros H. inversion H. contradiction.
+Qed.
+
+Lemma sc_map_res_not_empty F r : sc r <> Some ∅ -> sc (map_res F r) <> Some ∅.
+Proof.
+  unfold map_res. cbn [sc]. destruct (sc r) as [m|]; [|discriminate].
+  intros H H'. apply H. injection H' as H0. apply fmap_empty_inv in H0. rewrite H0. reflexivity.
+Qed.
+
+Lemma res_exact_amounts r : res_exact r = true ->
+  f64 (cpu r) = cpu r /\ f64 (mem r) = mem r /\ forall k v, scm r !! k = Some v -> f64 v = v.
+Proof.
+  unfold res_exact. rewrite !andb_true_iff, bool_decide_eq_true. intros [[H1 H2] H3].
+  apply amount_ok_spec in H1, H2. repeat split; try tauto. intros k v E. apply amount_ok_spec, (H3 k v E).
 Qed.
 
 Theorem law_rt_res_model r :
   law_rt_res r (convert r) (fst (new_resource (convert r))) (snd (new_resource (convert r))) = true.
 Proof.
   unfold law_rt_res.
+  destruct (res_exact r) eqn:E0; [|reflexivity].
   destruct (bool_decide (scm r !! cpu_name = None)) eqn:E1; [|reflexivity].
   destruct (bool_decide (scm r !! mem_name = None)) eqn:E2; [|reflexivity]. cbn [andb].
   apply bool_decide_eq_true in E1, E2.
-  destruct (new_resource_convert_pointwise r E1 E2) as (Hc & Hm & Hs).
+  destruct (res_exact_spec r E0) as [Ei _]. destruct (res_exact_amounts r E0) as (Fc & Fm & Fs).
+  unfold convert. rewrite Ei. unfold new_resource.
+  pose proof (new_resource_convert_pointwise_z r E1 E2) as (Hc & Hm & Hs).
+  pose proof (maxtask_convert_z r) as Hmt.
+  pose proof (sc_new_resource_z_not_empty (convert_z r)) as Hne.
+  destruct (new_resource_z (convert_z r)) as [rz mt]. cbn [fst snd] in *.
   rewrite !andb_true_iff. repeat split.
-  - apply bool_decide_eq_true. rewrite lookup_convert, E1. rewrite decide_True by reflexivity. reflexivity.
-  - apply bool_decide_eq_true. rewrite lookup_convert, E2.
+  - apply bool_decide_eq_true. rewrite lookup_convert_z, E1. rewrite decide_True by reflexivity. reflexivity.
+  - apply bool_decide_eq_true. rewrite lookup_convert_z, E2.
     rewrite decide_False by (vm_compute; congruence). rewrite decide_True by reflexivity. reflexivity.
   - apply forallb_forall. intros k _.
     destruct (bool_decide (k = cpu_name)) eqn:Ek1; [reflexivity|].
     destruct (bool_decide (k = mem_name)) eqn:Ek2; [reflexivity|]. cbn [orb].
     apply bool_decide_eq_false in Ek1, Ek2.
-    apply bool_decide_eq_true. rewrite lookup_convert.
+    apply bool_decide_eq_true. rewrite lookup_convert_z.
     destruct (scm r !! k) as [v|]; cbn.
     + unfold quantity_of. destruct (decide (k = pods_name)) as [->|Hp].
       * rewrite bool_decide_eq_true_2 by reflexivity. reflexivity.
       * rewrite bool_decide_eq_false_2 by exact Hp. reflexivity.
     + rewrite decide_False by exact Ek1. rewrite decide_False by exact Ek2. reflexivity.
-  - apply zeqb_true. exact Hc.
-  - apply zeqb_true. exact Hm.
-  - apply forallb_forall. intros k _. apply bool_decide_eq_true. apply Hs.
-  - apply negb_true_iff, bool_decide_eq_false. apply sc_new_resource_not_empty.
-  - apply zeqb_true. apply maxtask_convert.
+  - apply zeqb_true. cbn. rewrite Hc. exact Fc.
+  - apply zeqb_true. cbn. rewrite Hm. exact Fm.
+  - apply forallb_forall. intros k _. apply bool_decide_eq_true. rewrite scm_map_res, Hs.
+    destruct (kept_scalar k); [|reflexivity]. destruct (scm r !! k) as [v|] eqn:E; [|reflexivity].
+    cbn. f_equal. apply (Fs k v E).
+  - apply negb_true_iff, bool_decide_eq_false. apply sc_map_res_not_empty. exact Hne.
+  - apply zeqb_true. exact Hmt.
 Qed.
 
 Lemma whole_up_qvalue m : whole_up m (1000 * qvalue m) = true.
@@ -149,32 +170,54 @@ Proof.
       apply andb_true_iff. split; apply bool_decide_eq_true; lia.
 Qed.
 
+Lemma scm_new_resource rl k : scm (fst (new_resource rl)) !! k = f64 <$> (rl !! k ≫= scalar_of k).
+Proof.
+  unfold new_resource. pose proof (scm_new_resource_z rl k) as H.
+  destruct (new_resource_z rl) as [rz mt]. cbn [fst] in *. rewrite scm_map_res, H. reflexivity.
+Qed.
+
 Theorem law_rt_list_model rl :
   law_rt_list rl (fst (new_resource rl)) (snd (new_resource rl)) (convert (fst (new_resource rl))) = true.
 Proof.
   unfold law_rt_list. apply forallb_forall. intros k _.
-  pose proof (convert_new_resource rl k) as H. cbn zeta in H.
+  pose proof (convert_new_resource_any rl k) as H. cbn zeta in H.
   pose proof (scm_new_resource rl k) as Hs. unfold scalar_of in Hs.
+  assert (Hcpu : cpu (fst (new_resource rl)) = f64 (default 0 (rl !! cpu_name))).
+  { unfold new_resource, new_resource_z. reflexivity. }
+  assert (Hmem : mem (fst (new_resource rl)) = f64 (qvalue (default 0 (rl !! mem_name)))).
+  { unfold new_resource, new_resource_z. reflexivity. }
+  assert (Hmt : snd (new_resource rl) = qvalue (default 0 (rl !! pods_name))).
+  { unfold new_resource, new_resource_z. reflexivity. }
   destruct (name_class k) eqn:E.
-  - apply name_class_cpu in E. subst. apply andb_true_iff. split.
-    + apply bool_decide_eq_true. exact H.
-    + apply zeqb_true. reflexivity.
-  - apply name_class_mem in E. subst. rewrite H. apply andb_true_iff. split.
-    + apply whole_up_qvalue.
-    + apply zeqb_true. reflexivity.
+  - apply name_class_cpu in E. subst.
+    destruct (amount_ok (default 0 (rl !! cpu_name))) eqn:Ea; [|reflexivity]. cbn [negb orb].
+    apply amount_ok_spec in Ea as [A1 A2]. rewrite H, Hcpu, A1, A2.
+    apply andb_true_iff. split; [apply bool_decide_eq_true|apply zeqb_true]; reflexivity.
+  - apply name_class_mem in E. subst.
+    destruct (amount_ok (qvalue (default 0 (rl !! mem_name)))) eqn:Ea; [|reflexivity]. cbn [negb orb].
+    apply amount_ok_spec in Ea as [A1 A2]. rewrite H, Hmem, A1, A2.
+    apply andb_true_iff. split; [apply whole_up_qvalue|apply zeqb_true; reflexivity].
   - apply name_class_pods in E. subst. rewrite H.
     destruct (rl !! pods_name) as [m|] eqn:Em; cbn [fmap option_fmap option_map].
-    + rewrite !andb_true_iff. repeat split.
+    + destruct (amount_ok (qvalue m)) eqn:Ea; [|reflexivity]. cbn [negb orb].
+      apply amount_ok_spec in Ea as [A1 A2]. rewrite A1, A2.
+      rewrite !andb_true_iff. repeat split.
       * apply whole_up_qvalue.
-      * apply zeqb_true. unfold sget. rewrite Hs. reflexivity.
-      * apply zeqb_true. unfold new_resource. cbn [snd]. rewrite Em. reflexivity.
-    + apply zeqb_true. unfold new_resource. cbn [snd]. rewrite Em. reflexivity.
+      * apply zeqb_true. unfold sget. rewrite Hs. cbn. rewrite A1. reflexivity.
+      * apply zeqb_true. rewrite Hmt. reflexivity.
+    + apply zeqb_true. rewrite Hmt. reflexivity.
+  - rewrite H, Hs. destruct (rl !! k) as [m|]; cbn.
+    + destruct (amount_ok m) eqn:Ea; [|reflexivity]. cbn [negb orb].
+      apply amount_ok_spec in Ea as [A1 A2]. rewrite A1, A2.
+      first [reflexivity|apply andb_true_iff; split; apply bool_decide_eq_true; reflexivity].
+    + first [reflexivity|apply andb_true_iff; split; apply bool_decide_eq_true; reflexivity].
   - apply andb_true_iff. split; apply bool_decide_eq_true; [exact H|].
     rewrite Hs. destruct (rl !! k); reflexivity.
-  - apply andb_true_iff. split; apply bool_decide_eq_true; [exact H|].
-    rewrite Hs. destruct (rl !! k); reflexivity.
-  - apply andb_true_iff. split; apply bool_decide_eq_true; [exact H|].
-    rewrite Hs. destruct (rl !! k); reflexivity.
+  - rewrite H, Hs. destruct (rl !! k) as [m|]; cbn.
+    + destruct (amount_ok m) eqn:Ea; [|reflexivity]. cbn [negb orb].
+      apply amount_ok_spec in Ea as [A1 A2]. rewrite A1, A2.
+      first [reflexivity|apply andb_true_iff; split; apply bool_decide_eq_true; reflexivity].
+    + first [reflexivity|apply andb_true_iff; split; apply bool_decide_eq_true; reflexivity].
   - apply andb_true_iff. split; apply bool_decide_eq_true; [exact H|].
     rewrite Hs. destruct (rl !! k); reflexivity.
   - apply andb_true_iff. split; apply bool_decide_eq_true; [exact H|].
@@ -287,3 +330,16 @@ Theorem law_sub_assert_model eps r rr :
   law_sub_assert (match sub_assert eps r rr with SubPanic => true | SubOk _ => false end)
                  (less_equal eps rr r DZero) = true.
 Proof. unfold law_sub_assert, sub_assert. destruct (less_equal eps rr r DZero); reflexivity. Qed.
+
+Theorem law_min_inf_model r rr : law_min_inf r rr (min_dim r rr DInf) = true.
+Proof.
+  unfold law_min_inf. rewrite !andb_true_iff. repeat split; try (apply zeqb_true; reflexivity).
+  apply forallb_forall. intros k _.
+  destruct (sc r) as [m|] eqn:E.
+  - destruct (min_dim_spec r rr DInf m E) as (_ & _ & Hk). rewrite Hk.
+    assert (Hm : scm r !! k = m !! k) by (unfold scm; rewrite E; reflexivity).
+    rewrite Hm. destruct (m !! k) as [v|]; apply bool_decide_eq_true; [|reflexivity].
+    destruct (scm rr !! k); reflexivity.
+  - assert (Hn : scm r !! k = None) by (unfold scm; rewrite E; apply lookup_empty).
+    rewrite Hn. apply bool_decide_eq_true. unfold min_dim, scm. cbn [sc]. rewrite E. apply lookup_empty.
+Qed.
